@@ -283,6 +283,9 @@ func C11(rep *ev.Reporter, tier string) {
 	calls += nm
 	nontrivial += ntm
 	rep.Coverage["calls_between_caller_mutations"] = nm
+	nd := c11SameDocumentTwice(rep)
+	calls += nd
+	rep.Coverage["calls_after_the_same_document_served_another_context"] = nd
 	// fact TYPES: three struct types printed alike with permuted / promoted fields, every sequence of reads up to depth 3
 	_, tops := twinTypes(rep, "C11", 3, []int{2})
 	calls += tops
